@@ -116,7 +116,38 @@ pub fn num(ty: &str, b: &[u8]) -> String {
         }
         _ => true,
     };
-    let ok = tolen_ok && match ty {
+    // the wider wrappers are `Visit` types too: `visit` under a visitor, `self_visit` of the parsed wrapper and the
+    // provided `len` must all describe the same `w` bytes (value, width consumed, empty remainder on re-visit)
+    macro_rules! vis {
+        ($T:ty) => {{
+            let p = pc(|| <$T as Parse>::parse(b));
+            let v = pc(|| <$T as Visit>::visit(b, &mut bitcoin_slices::EmptyVisitor {}));
+            match (p, v) {
+                (Ok(Ok(p)), Ok(Ok(v))) => {
+                    let same = p.parsed() == v.parsed() && p.remaining().as_ptr() == v.remaining().as_ptr() && p.remaining().len() == v.remaining().len();
+                    let x = p.parsed_owned();
+                    let sv = pc(|| {
+                        let r = Visit::self_visit(&x, &mut bitcoin_slices::EmptyVisitor {});
+                        match r {
+                            Ok(r) => *r.parsed() == x && r.remaining().is_empty() && r.consumed() == w,
+                            Err(_) => false,
+                        }
+                    });
+                    same && sv == Ok(true) && Visit::len(&x) == w
+                }
+                (Ok(Err(a)), Ok(Err(c))) => a == c,
+                _ => false,
+            }
+        }};
+    }
+    let vis_ok = match ty {
+        "u16" => vis!(U16),
+        "u32" => vis!(U32),
+        "i32" => vis!(I32),
+        "u64" => vis!(U64),
+        _ => true,
+    };
+    let ok = tolen_ok && vis_ok && match ty {
         "u8" => chk!(U8, u8, read_u8),
         "u16" => chk!(U16, u16, read_u16),
         "u32" => chk!(U32, u32, read_u32),
@@ -125,6 +156,81 @@ pub fn num(ty: &str, b: &[u8]) -> String {
         _ => true,
     };
     format!(" #ref={}", if ok { "ok" } else { "FAIL" })
+}
+
+/// C17 through the provided / overridable adaptors of `Iterator`: from an iterator advanced k times, `count`, `last`,
+/// `fold`, `for_each`, `max_by_key`, `min_by_key`, `skip`, `step_by` and `len` must all speak about the outputs that
+/// plain `next()` still has to yield (the `next()` sequence itself is compared with the visitor's callbacks elsewhere)
+pub fn iter_adaptors(o: &bsl::TxOuts) -> String {
+    let r = pc(|| {
+        let key = |x: &bsl::TxOut| (x.as_ref().as_ptr() as usize, x.as_ref().len(), x.value());
+        let base: Vec<(usize, usize, u64)> = {
+            let mut v = vec![];
+            let mut it = o.iter();
+            let mut fuel = o.as_ref().len() + 2;
+            while let Some(x) = it.next() {
+                v.push(key(&x));
+                fuel -= 1;
+                if fuel == 0 {
+                    return "FAIL:iterator-does-not-end".to_string();
+                }
+            }
+            v
+        };
+        let n = base.len();
+        for k in 0..=n.min(3) {
+            let adv = || {
+                let mut it = o.iter();
+                for _ in 0..k {
+                    it.next();
+                }
+                it
+            };
+            let rest = &base[k..];
+            if adv().count() != rest.len() {
+                return format!("FAIL:count-after-{}-next", k);
+            }
+            if adv().len() != rest.len() {
+                return format!("FAIL:len-after-{}-next", k);
+            }
+            if adv().last().map(|x| key(&x)) != rest.last().copied() {
+                return format!("FAIL:last-after-{}-next", k);
+            }
+            let folded = adv().fold(vec![], |mut a, x| {
+                a.push(key(&x));
+                a
+            });
+            if folded != rest {
+                return format!("FAIL:fold-after-{}-next", k);
+            }
+            let mut fe = vec![];
+            adv().for_each(|x| fe.push(key(&x)));
+            if fe != rest {
+                return format!("FAIL:for_each-after-{}-next", k);
+            }
+            if adv().max_by_key(|x| x.value()).map(|x| key(&x)) != rest.iter().max_by_key(|x| x.2).copied()
+                || adv().min_by_key(|x| x.value()).map(|x| key(&x)) != rest.iter().min_by_key(|x| x.2).copied()
+            {
+                return format!("FAIL:max/min_by_key-after-{}-next", k);
+            }
+            if adv().map(|x| x.value() as u128).sum::<u128>() != rest.iter().map(|x| x.2 as u128).sum::<u128>() {
+                return format!("FAIL:sum-after-{}-next", k);
+            }
+            if adv().skip(1).map(|x| key(&x)).collect::<Vec<_>>() != rest.iter().skip(1).copied().collect::<Vec<_>>() {
+                return format!("FAIL:skip-after-{}-next", k);
+            }
+            if adv().step_by(2).map(|x| key(&x)).collect::<Vec<_>>() != rest.iter().step_by(2).copied().collect::<Vec<_>>()
+                || adv().step_by(3).map(|x| key(&x)).collect::<Vec<_>>() != rest.iter().step_by(3).copied().collect::<Vec<_>>()
+            {
+                return format!("FAIL:step_by-after-{}-next", k);
+            }
+            if adv().enumerate().map(|(i, x)| (i, key(&x))).collect::<Vec<_>>() != rest.iter().copied().enumerate().collect::<Vec<_>>() {
+                return format!("FAIL:enumerate-after-{}-next", k);
+            }
+        }
+        "ok".to_string()
+    });
+    r.unwrap_or_else(|_| "FAIL:iterator-adaptor-panics".into())
 }
 
 /// a copy of `v` that can be borrowed at any lifetime; released with `unleak` once no borrow survives
@@ -1049,6 +1155,22 @@ pub fn find_line(ctx: &Ctx, id: &[u8], b: &[u8]) -> String {
                 }
             }
         };
+        // the same searcher used for a second pass over the same block answers the same (a search that already
+        // succeeded, then succeeds again at the same transaction)
+        let o = if o == "ok" && b.len() < 200_000 {
+            let again = pc(|| {
+                let mut v2 = bsl::FindTransaction::new(txid);
+                let r1 = bsl::Block::visit(b, &mut v2).map(|_| ());
+                let r2 = bsl::Block::visit(b, &mut v2).map(|_| ());
+                (r1, r2, v2.tx_found())
+            });
+            match again {
+                Ok((r1, r2, f2)) if Ok(r1.clone()) == r && r2 == r1 && f2 == found => o,
+                _ => "FAIL:find-second-pass-with-the-same-searcher-differs".to_string(),
+            }
+        } else {
+            o
+        };
         line.push_str(&format!(" #find={}", o));
         // a search that finds nothing is a plain visit: no heap allocation (C05)
         if found.is_none() && r.is_ok() {
@@ -1169,7 +1291,11 @@ pub fn redb_line(ctx: &Ctx, ty: &str, b: &[u8]) -> String {
                     }
                     _ => "na",
                 };
-                format!("{} redbtx={}", line, v)
+                if line.contains(" #") {
+                    format!("{} redbtx={}", line, v)
+                } else {
+                    format!("{} #redbtx={}", line, v)
+                }
             } else {
                 line
             }
